@@ -99,6 +99,20 @@ func buildFlavour(swap, pending bool) *tworld {
 	must(err)
 	tw.p = pn
 	must(kit.KeySessions(tw.p, tw.r))
+	// R tracks flows of its own: local packets to X and Y (tcp/80), so that error
+	// notices naming a router or a flow meet connection state they refer to.
+	for i, n := range []*kit.Node{tw.x, tw.y} {
+		pk := make([]byte, 60)
+		pk[0], pk[5], pk[6], pk[7] = 0x60, 20, 6, 64
+		sr, dn := tw.r.Identity().IP.As16(), n.Identity().IP.As16()
+		copy(pk[8:24], sr[:])
+		copy(pk[24:40], dn[:])
+		pk[40], pk[41], pk[43] = 0x75, byte(0x30+i), 80
+		ps := tw.r.FrameBuilder().GetPooledSlice(len(pk))
+		copy(ps, pk)
+		_ = w.TunPacket(tw.r, ps[:len(pk)])
+	}
+	w.InFlight, w.Log = nil, nil
 	return tw
 }
 
@@ -224,20 +238,22 @@ func bases(tw *tworld) map[string]recipe {
 	ann.dst = m.RouterAddress
 	ann.seal = 1
 	return map[string]recipe{
-		"hello-request":  ping("hello", 0, false, frame.RouterPing, &router.HelloPingRequest{KeyExchange: kx, KeyExchangeType: "ECDH-X25519/BLAKE3", MTU: 1400}),
-		"hello-response": ping("hello", 0, true, frame.RouterPing, &router.HelloPingResponse{KeyExchange: kx, KeyExchangeType: "ECDH-X25519/BLAKE3", MTU: 1400}),
-		"pong-request":   ping("pong", 0, false, frame.RouterPing, map[string]string{"msg": "ping"}),
-		"pong-response":  ping("pong", 0, true, frame.RouterPing, map[string]string{"msg": "pong"}),
-		"error-generic":  ping("error", 0, false, frame.RouterPing, "text"),
-		"error-unreach":  ping("error", 1, false, frame.RouterPing, map[string]any{"u": r.IP}),
-		"error-nokeys":   ping("error", 2, false, frame.RouterPing, nil),
-		"error-denied":   ping("error", 3, false, frame.RouterCtrl, map[string]any{"d": x.IP, "t": 6, "p": 80}),
-		"error-rejected": ping("error", 4, false, frame.RouterCtrl, map[string]any{"d": x.IP, "t": 6, "p": 80}),
-		"disconnect":     ping("disconnect", 0, false, frame.RouterPing, &router.DisconnectPingMsg{GoingDown: true}),
-		"announce":       ann,
-		"traffic":        {src: x.IP, dst: r.IP, mt: frame.NetworkTraffic, rawMsg: pk},
-		"session-ctrl":   {src: x.IP, dst: r.IP, mt: frame.SessionCtrl, rawMsg: []byte("ctrl")},
-		"session-data":   {src: x.IP, dst: r.IP, mt: frame.SessionData, rawMsg: []byte("data")},
+		"hello-request":   ping("hello", 0, false, frame.RouterPing, &router.HelloPingRequest{KeyExchange: kx, KeyExchangeType: "ECDH-X25519/BLAKE3", MTU: 1400}),
+		"hello-response":  ping("hello", 0, true, frame.RouterPing, &router.HelloPingResponse{KeyExchange: kx, KeyExchangeType: "ECDH-X25519/BLAKE3", MTU: 1400}),
+		"pong-request":    ping("pong", 0, false, frame.RouterPing, map[string]string{"msg": "ping"}),
+		"pong-response":   ping("pong", 0, true, frame.RouterPing, map[string]string{"msg": "pong"}),
+		"error-generic":   ping("error", 0, false, frame.RouterPing, "text"),
+		"error-unreach":   ping("error", 1, false, frame.RouterPing, map[string]any{"u": r.IP}),
+		"error-unreach-x": ping("error", 1, false, frame.RouterPing, map[string]any{"u": x.IP}),
+		"error-unreach-y": ping("error", 1, false, frame.RouterPing, map[string]any{"u": tw.y.Identity().IP}),
+		"error-nokeys":    ping("error", 2, false, frame.RouterPing, nil),
+		"error-denied":    ping("error", 3, false, frame.RouterCtrl, map[string]any{"d": x.IP, "t": 6, "p": 80}),
+		"error-rejected":  ping("error", 4, false, frame.RouterCtrl, map[string]any{"d": x.IP, "t": 6, "p": 80}),
+		"disconnect":      ping("disconnect", 0, false, frame.RouterPing, &router.DisconnectPingMsg{GoingDown: true}),
+		"announce":        ann,
+		"traffic":         {src: x.IP, dst: r.IP, mt: frame.NetworkTraffic, rawMsg: pk},
+		"session-ctrl":    {src: x.IP, dst: r.IP, mt: frame.SessionCtrl, rawMsg: []byte("ctrl")},
+		"session-data":    {src: x.IP, dst: r.IP, mt: frame.SessionData, rawMsg: []byte("data")},
 	}
 }
 
@@ -493,7 +509,17 @@ func deviations() []deviation {
 	return ds
 }
 
+// stallWatch is the real-time stall oracle of this check (see kit.Watchdog).
+var stallWatch *kit.Watchdog
+
+func markCase(class, desc string) {
+	if stallWatch != nil {
+		stallWatch.Case(class, desc)
+	}
+}
+
 func (tw *tworld) deliver(rc recipe) (panics []string, err error) {
+	markCase(fmt.Sprintf("structured/type%d/%s/code%d", rc.mt, rc.hdr.PingType, rc.hdr.PingCode), strings.Join(rc.note, ", "))
 	raw, err := tw.wire(rc)
 	if err != nil {
 		return nil, err
@@ -537,7 +563,10 @@ func TestC13(t *testing.T) {
 	env := kit.GetEnv()
 	rep := kit.NewReport("C13", env)
 	rep.Rule = "(1) raw bytes: every byte string of length 0..2, every prefix of 14 valid frames, each valid frame + 1 byte, through parser, switch and router of a real router; link reader: every 2-byte string as the first bytes of a connection, garbage (0/exact/short/long following bytes) at each of the 3 handshake read positions, a sweep of ~700 length-prefix values x {exact, short} after the handshake; well-formed, correctly signed link-setup messages of a peer that owns its identity, as dialling and as accepting side, with each request/response/ack field set to strings of 1..64000 bytes of {NUL, 'a', quote, DEL}, odd integers or left out; congestion: 99..1300 ping / traffic / mixed frames from an authenticated peer forwarded by the router to a real link whose neighbour stopped reading (both send queues overflow); (2) structured: 14 valid base frames (every ping type and code, traffic, session types) x all single and all pairs (different fields) of ~190 deviations over frame fields (version, TTL, flow, all interesting type values, 9 sources, 8 destinations, 10 switch blocks, sealing mode, receive link), ping framing (version, header length, type, code, follow-up, id, identity fields, raw header encodings), 25 CBOR bodies, inner packets, appendix garbage and signed hop chains (depth up to 56, self reference, loop, 3-byte labels) - always re-sealed with the authenticated peer's real keys; (2b) request/response protocols started by the router itself (pong, hello) with the peer's genuine response delivered 1-3 times, also after clock steps and interleaved with a second exchange; (2c) every base x single deviation against a router whose own hello and pong requests to the sender are pending, in both address orderings, followed by a 31 s clock step and the periodic cleaners; the periodic cleaners also run after every case of (2); (3) cases are delivered back to back to long-lived routers (worlds are renewed every 40 cases or after a panic), so every case also runs from the state its predecessors left; non-trivial = every case except the 14 unmodified bases; distinct = distinct (base, deviation set)"
+	stallWatch = rep.StartWatchdog(env, 0)
+	defer stallWatch.Stop()
 	rep.Assumptions = []string{
+		"a stall inside one synchronous handler call is observed in real time: a case that does not return within 300 s (cases take milliseconds) is reported as stalled and ends the shard",
 		"a panic is observed exactly where production observes it: recovered by the worker wrapper of the module manager (ErrWorkerPanic) or as a worker-panic alert for link workers",
 		"the double-return guard of the frame pool panics, so 'each frame buffer released at most once' is observed as absence of that panic",
 		"byte strings longer than the enumerated shapes are covered only through structured deviations",
